@@ -20,10 +20,11 @@ NH = 3
 
 
 class TreePool(object):
-    def __init__(self):
+    def __init__(self, veq=0):
         build.install()
         from . import obsclasses
-        self.objs = [None] + [obsclasses.Node() for _ in range(NOBJ)]
+        self.veq = veq
+        self.objs = [None] + [(obsclasses.VNode if veq else obsclasses.Node)() for _ in range(NOBJ)]
         for k in range(1, NOBJ + 1):
             self.objs[k].tokn = k
         self.tok = {id(o): k for k, o in enumerate(self.objs) if o is not None}
@@ -32,13 +33,27 @@ class TreePool(object):
         self.lh = {h: self._legacy(h) for h in range(1, NH + 1)}
         self.oh = {h: self._obs(h) for h in range(1, NH + 1)}
         self.regs = {}       # h -> legacy name (both mechanisms registered together)
+        self.sig = {}        # h -> number of arguments of the registered legacy handler
 
     def _legacy(self, h):
+        """the legacy handler of slot h in each of the five accepted signatures (one of them is registered at a time)"""
         log = self.llog[h]
 
-        def handler(obj, name, old, new):
+        def h0():
+            log.append("")
+
+        def h1(new):
+            log.append("")
+
+        def h2(name, new):
             log.append(name)
-        return handler
+
+        def h3(obj, name, new):
+            log.append(name)
+
+        def h4(obj, name, old, new):
+            log.append(name)
+        return [h0, h1, h2, h3, h4]
 
     def _obs(self, h):
         log = self.olog[h]
@@ -117,8 +132,11 @@ def tree_mut(rnd, heap):
         y = fresh() if rnd.random() < 0.8 else 0
         m.update(t="child", a=[y or 0, 0, 0])
     elif u < 0.3:
-        # reassign the list: a permutation of the same objects, or fresh ones
-        if cur and rnd.random() < 0.5:
+        # reassign the list: an EQUAL but distinct list (no change to report, yet the new list is the one to follow from
+        # now on), a permutation of the same objects, or fresh ones
+        if cur and rnd.random() < 0.3:
+            xs = list(cur)
+        elif cur and rnd.random() < 0.5:
             xs = list(cur)
             rnd.shuffle(xs)
         else:
@@ -165,18 +183,26 @@ def tree_mut(rnd, heap):
         elif op in ("delitem", "pop"):
             a = [rnd.choice(keys), 1 if op == "pop" else 0, 0]
         m.update(t="d", op=op, a=a, ps=ps)
+    elif u < 0.9:
+        # reassign the dict: an equal but distinct one, or fresh objects
+        curd = [list(p) for p in heap["d"][x - 1]]
+        if curd and rnd.random() < 0.6:
+            ps = curd
+        else:
+            ps = [[k, y] for k, y in ((k, fresh()) for k in rnd.sample([1, 2, 3], rnd.randint(0, 2))) if y]
+        m.update(t="dassign", ps=ps)
     else:
         m.update(t="value", x=rnd.randint(1, NOBJ))
     return m
 
 
 def run_history(rnd, steps, t):
-    pool = TreePool()
+    pool = TreePool(veq=1 if rnd.random() < 0.4 else 0)
     root = pool.objs[1]
     out = []
     for s in range(steps):
         pre = pool.heap()
-        regs1 = [{"h": h, "e": NAMES[nm], "n": 1, "name": nm} for h, nm in sorted(pool.regs.items())]
+        regs1 = [{"h": h, "e": NAMES[nm], "n": 1, "name": nm, "sig": pool.sig.get(h, 4)} for h, nm in sorted(pool.regs.items())]
         pool.clear()
         exc = ""
         u = rnd.random()
@@ -186,7 +212,7 @@ def run_history(rnd, steps, t):
                 nm = pool.regs[h]
                 m = {"t": "unobserve", "h": h, "e": NAMES[nm], "op": "", "x": 1, "a": [0, 0, 0], "xs": [], "ps": []}
                 try:
-                    root.on_trait_change(pool.lh[h], nm, remove=True)
+                    root.on_trait_change(pool.lh[h][pool.sig[h]], nm, remove=True)
                     root.observe(pool.oh[h], NAMES[nm], remove=True)
                     del pool.regs[h]
                 except Exception as ex:
@@ -195,7 +221,11 @@ def run_history(rnd, steps, t):
                 nm = rnd.choice(sorted(NAMES))
                 m = {"t": "observe", "h": h, "e": NAMES[nm], "op": "", "x": 1, "a": [0, 0, 0], "xs": [], "ps": []}
                 try:
-                    root.on_trait_change(pool.lh[h], nm)
+                    # (handlers taking fewer than three arguments are documented as incompatible with changes of an
+                    # intermediate CONTAINER link - "Dynamic Handler Special Cases": the short signatures go with
+                    # Instance links only)
+                    pool.sig[h] = rnd.choice([0, 1, 2, 3, 4, 4] if not ({"kids", "d"} & set(nm.replace(":", ".").split("."))) else [3, 4])
+                    root.on_trait_change(pool.lh[h][pool.sig[h]], nm)
                     root.observe(pool.oh[h], NAMES[nm])
                     pool.regs[h] = nm
                 except Exception as ex:
@@ -208,10 +238,10 @@ def run_history(rnd, steps, t):
                 exc = type(ex).__name__
         lc, ocn = pool.counts()
         post = pool.heap()
-        regs2 = [{"h": h, "e": NAMES[nm], "n": 1, "name": nm} for h, nm in sorted(pool.regs.items())]
+        regs2 = [{"h": h, "e": NAMES[nm], "n": 1, "name": nm, "sig": pool.sig.get(h, 4)} for h, nm in sorted(pool.regs.items())]
         lp, op = pool.probe()
         out.append({"tid": t, "step": s, "m": m, "exc": exc, "pre": pre, "post": post, "regs": regs1, "regs2": regs2,
-                    "lcalls": lc, "ocalls": ocn, "lprobe": lp, "oprobe": op})
+                    "lcalls": lc, "ocalls": ocn, "lprobe": lp, "oprobe": op, "veq": pool.veq})
         if exc and exc not in ("IndexError", "KeyError"):
             break
     return out
